@@ -53,8 +53,11 @@ type Run struct {
 	Extra       map[string]any
 }
 
+// ProcStart is the start of the process (wall time includes loading).
+var ProcStart = time.Now()
+
 func NewRun(prop, tier string, p *Prog) *Run {
-	return &Run{Prop: prop, Tier: tier, P: p, Funcs: map[string]bool{}, start: time.Now(), Extra: map[string]any{}}
+	return &Run{Prop: prop, Tier: tier, P: p, Funcs: map[string]bool{}, start: ProcStart, Extra: map[string]any{}}
 }
 
 // Check evaluates one obligation. A panic inside f, or an obligation that
